@@ -7,6 +7,7 @@
 #include "vf/core.hpp"
 #include "vf/gen.hpp"
 #include "vf/c09_rt.hpp"
+#include "vf/c09_rec.hpp"
 #include <theta_sketch.hpp>
 #include <theta_union.hpp>
 #include <theta_intersection.hpp>
@@ -28,59 +29,13 @@ void final_report() {}
 
 static const uint64_t MAXT = 0x7fffffffffffffffULL;
 
-// ------------------------------------------------------------------ custom summary + serde
-struct Rec {
-  int32_t a = 0;
-  std::string s;
-  Rec& operator+=(const Rec& o) { a += o.a; if (s.size() < 12) s += o.s; return *this; }
-  bool operator==(const Rec& o) const { return a == o.a && s == o.s; }
-};
-// layout per item: 1 byte length L (<= 255), L bytes, int32 little endian
-struct RecSerde {
-  void serialize(std::ostream& os, const Rec* items, unsigned num) const {
-    for (unsigned i = 0; i < num; ++i) {
-      const uint8_t l = static_cast<uint8_t>(items[i].s.size());
-      os.write(reinterpret_cast<const char*>(&l), 1); os.write(items[i].s.data(), l);
-      os.write(reinterpret_cast<const char*>(&items[i].a), 4);
-    }
-  }
-  void deserialize(std::istream& is, Rec* items, unsigned num) const {
-    for (unsigned i = 0; i < num; ++i) {
-      uint8_t l = 0; is.read(reinterpret_cast<char*>(&l), 1);
-      std::string s(l, '\0'); if (l) is.read(&s[0], l);
-      int32_t a = 0; is.read(reinterpret_cast<char*>(&a), 4);
-      if (!is.good()) throw std::runtime_error("RecSerde: stream error");
-      new (&items[i]) Rec(); items[i].a = a; items[i].s = std::move(s);
-    }
-  }
-  size_t serialize(void* ptr, size_t capacity, const Rec* items, unsigned num) const {
-    uint8_t* p = static_cast<uint8_t*>(ptr); size_t w = 0;
-    for (unsigned i = 0; i < num; ++i) {
-      const uint8_t l = static_cast<uint8_t>(items[i].s.size());
-      if (w + 5 + l > capacity) throw std::out_of_range("RecSerde: capacity exceeded on write");
-      p[w++] = l; memcpy(p + w, items[i].s.data(), l); w += l; memcpy(p + w, &items[i].a, 4); w += 4;
-    }
-    return w;
-  }
-  size_t deserialize(const void* ptr, size_t capacity, Rec* items, unsigned num) const {
-    const uint8_t* p = static_cast<const uint8_t*>(ptr); size_t rd = 0;
-    for (unsigned i = 0; i < num; ++i) {
-      if (rd + 1 > capacity) throw std::out_of_range("RecSerde: capacity exceeded on read");
-      const uint8_t l = p[rd++];
-      if (rd + l + 4 > capacity) throw std::out_of_range("RecSerde: capacity exceeded on read");
-      new (&items[i]) Rec(); items[i].s.assign(reinterpret_cast<const char*>(p + rd), l); rd += l; memcpy(&items[i].a, p + rd, 4); rd += 4;
-    }
-    return rd;
-  }
-  size_t size_of_item(const Rec& r) const { return 5 + r.s.size(); }
-};
+// ------------------------------------------------------------------ custom summary policies (Rec: vf/c09_rec.hpp)
 struct RecUpdatePolicy {
   Rec create() const { return Rec(); }
   void update(Rec& r, const Rec& u) const { r += u; }
 };
 struct RecMergePolicy { void operator()(Rec& a, const Rec& b) const { a += b; } };
 
-static std::string item_str(const Rec& r) { return std::to_string(r.a) + ":'" + hexbytes(r.s.data(), r.s.size(), 40) + "'"; }
 static std::string item_str(const array<double>& a) { std::string o = "["; for (uint8_t i = 0; i < a.size(); ++i) o += Obs::f64(a[i]) + ","; return o + "]"; }
 
 // ------------------------------------------------------------------ read-out of any theta-like sketch
